@@ -40,9 +40,12 @@ Gen/Rules.vos Gen/Rules.vok Gen/Rules.required_vos: Gen/Rules.v Core/Base.vos Se
 Gen/Decorators.vo Gen/Decorators.glob Gen/Decorators.v.beautified Gen/Decorators.required_vo: Gen/Decorators.v 
 Gen/Decorators.vio: Gen/Decorators.v 
 Gen/Decorators.vos Gen/Decorators.vok Gen/Decorators.required_vos: Gen/Decorators.v 
-Sem/Scenario.vo Sem/Scenario.glob Sem/Scenario.v.beautified Sem/Scenario.required_vo: Sem/Scenario.v Core/Base.vo Core/Prog.vo Py/Sig.vo Sem/Interp.vo Sem/InterpFacts.vo Sem/Model.vo Sem/Show.vo Gen/State.vo Sem/ScnSwitch.vo Gen/Validators.vo Gen/HasPatcher.vo Gen/Contracts.vo
-Sem/Scenario.vio: Sem/Scenario.v Core/Base.vio Core/Prog.vio Py/Sig.vio Sem/Interp.vio Sem/InterpFacts.vio Sem/Model.vio Sem/Show.vio Gen/State.vio Sem/ScnSwitch.vio Gen/Validators.vio Gen/HasPatcher.vio Gen/Contracts.vio
-Sem/Scenario.vos Sem/Scenario.vok Sem/Scenario.required_vos: Sem/Scenario.v Core/Base.vos Core/Prog.vos Py/Sig.vos Sem/Interp.vos Sem/InterpFacts.vos Sem/Model.vos Sem/Show.vos Gen/State.vos Sem/ScnSwitch.vos Gen/Validators.vos Gen/HasPatcher.vos Gen/Contracts.vos
+Gen/Dispatch.vo Gen/Dispatch.glob Gen/Dispatch.v.beautified Gen/Dispatch.required_vo: Gen/Dispatch.v Core/Base.vo Core/Prog.vo Py/Sig.vo Sem/Interp.vo Sem/Model.vo
+Gen/Dispatch.vio: Gen/Dispatch.v Core/Base.vio Core/Prog.vio Py/Sig.vio Sem/Interp.vio Sem/Model.vio
+Gen/Dispatch.vos Gen/Dispatch.vok Gen/Dispatch.required_vos: Gen/Dispatch.v Core/Base.vos Core/Prog.vos Py/Sig.vos Sem/Interp.vos Sem/Model.vos
+Sem/Scenario.vo Sem/Scenario.glob Sem/Scenario.v.beautified Sem/Scenario.required_vo: Sem/Scenario.v Core/Base.vo Core/Prog.vo Py/Sig.vo Sem/Interp.vo Sem/InterpFacts.vo Sem/Model.vo Sem/Show.vo Gen/State.vo Sem/ScnSwitch.vo Gen/Validators.vo Gen/HasPatcher.vo Gen/Contracts.vo Gen/Dispatch.vo
+Sem/Scenario.vio: Sem/Scenario.v Core/Base.vio Core/Prog.vio Py/Sig.vio Sem/Interp.vio Sem/InterpFacts.vio Sem/Model.vio Sem/Show.vio Gen/State.vio Sem/ScnSwitch.vio Gen/Validators.vio Gen/HasPatcher.vio Gen/Contracts.vio Gen/Dispatch.vio
+Sem/Scenario.vos Sem/Scenario.vok Sem/Scenario.required_vos: Sem/Scenario.v Core/Base.vos Core/Prog.vos Py/Sig.vos Sem/Interp.vos Sem/InterpFacts.vos Sem/Model.vos Sem/Show.vos Gen/State.vos Sem/ScnSwitch.vos Gen/Validators.vos Gen/HasPatcher.vos Gen/Contracts.vos Gen/Dispatch.vos
 Sem/ScnMarkers.vo Sem/ScnMarkers.glob Sem/ScnMarkers.v.beautified Sem/ScnMarkers.required_vo: Sem/ScnMarkers.v Core/Base.vo Sem/Model.vo Sem/Show.vo Gen/HasPatcher.vo Gen/Rules.vo
 Sem/ScnMarkers.vio: Sem/ScnMarkers.v Core/Base.vio Sem/Model.vio Sem/Show.vio Gen/HasPatcher.vio Gen/Rules.vio
 Sem/ScnMarkers.vos Sem/ScnMarkers.vok Sem/ScnMarkers.required_vos: Sem/ScnMarkers.v Core/Base.vos Sem/Model.vos Sem/Show.vos Gen/HasPatcher.vos Gen/Rules.vos
@@ -112,3 +115,9 @@ Thm/C06/Transparent.vos Thm/C06/Transparent.vok Thm/C06/Transparent.required_vos
 Props/C06.vo Props/C06.glob Props/C06.v.beautified Props/C06.required_vo: Props/C06.v Core/Base.vo Core/Prog.vo Py/Sig.vo Sem/Interp.vo Sem/InterpFacts.vo Sem/Model.vo Gen/Validators.vo Gen/HasPatcher.vo Gen/Contracts.vo Sem/Scenario.vo Sem/Show.vo Thm/Common/Loops.vo Thm/Common/PatchFacts.vo Thm/C01/Gate.vo Thm/C02/Post.vo Thm/C06/Transparent.vo
 Props/C06.vio: Props/C06.v Core/Base.vio Core/Prog.vio Py/Sig.vio Sem/Interp.vio Sem/InterpFacts.vio Sem/Model.vio Gen/Validators.vio Gen/HasPatcher.vio Gen/Contracts.vio Sem/Scenario.vio Sem/Show.vio Thm/Common/Loops.vio Thm/Common/PatchFacts.vio Thm/C01/Gate.vio Thm/C02/Post.vio Thm/C06/Transparent.vio
 Props/C06.vos Props/C06.vok Props/C06.required_vos: Props/C06.v Core/Base.vos Core/Prog.vos Py/Sig.vos Sem/Interp.vos Sem/InterpFacts.vos Sem/Model.vos Gen/Validators.vos Gen/HasPatcher.vos Gen/Contracts.vos Sem/Scenario.vos Sem/Show.vos Thm/Common/Loops.vos Thm/Common/PatchFacts.vos Thm/C01/Gate.vos Thm/C02/Post.vos Thm/C06/Transparent.vos
+Thm/C12/DispatchThm.vo Thm/C12/DispatchThm.glob Thm/C12/DispatchThm.v.beautified Thm/C12/DispatchThm.required_vo: Thm/C12/DispatchThm.v Core/Base.vo Core/Prog.vo Py/Sig.vo Sem/Interp.vo Sem/InterpFacts.vo Sem/StmtFacts.vo Sem/Model.vo Gen/Dispatch.vo
+Thm/C12/DispatchThm.vio: Thm/C12/DispatchThm.v Core/Base.vio Core/Prog.vio Py/Sig.vio Sem/Interp.vio Sem/InterpFacts.vio Sem/StmtFacts.vio Sem/Model.vio Gen/Dispatch.vio
+Thm/C12/DispatchThm.vos Thm/C12/DispatchThm.vok Thm/C12/DispatchThm.required_vos: Thm/C12/DispatchThm.v Core/Base.vos Core/Prog.vos Py/Sig.vos Sem/Interp.vos Sem/InterpFacts.vos Sem/StmtFacts.vos Sem/Model.vos Gen/Dispatch.vos
+Props/C12.vo Props/C12.glob Props/C12.v.beautified Props/C12.required_vo: Props/C12.v Core/Base.vo Core/Prog.vo Py/Sig.vo Sem/Interp.vo Sem/InterpFacts.vo Sem/Model.vo Gen/Dispatch.vo Thm/C12/DispatchThm.vo
+Props/C12.vio: Props/C12.v Core/Base.vio Core/Prog.vio Py/Sig.vio Sem/Interp.vio Sem/InterpFacts.vio Sem/Model.vio Gen/Dispatch.vio Thm/C12/DispatchThm.vio
+Props/C12.vos Props/C12.vok Props/C12.required_vos: Props/C12.v Core/Base.vos Core/Prog.vos Py/Sig.vos Sem/Interp.vos Sem/InterpFacts.vos Sem/Model.vos Gen/Dispatch.vos Thm/C12/DispatchThm.vos
